@@ -67,20 +67,21 @@ def subpixel_pcc(
             )
         )
 
-        _lshift = (shifts + _max_shifts) * upsample_factor
-        _rshift = (_max_shifts - shifts) * upsample_factor
-        power = crop_by_max_shifts(
-            power, _lshift.astype(np.int32), _rshift.astype(np.int32), backend
-        )
+        _lshift = ((shifts + _max_shifts) * upsample_factor).astype(np.int32)
+        _rshift = ((_max_shifts - shifts) * upsample_factor).astype(np.int32)
+        # The upsampled DFT is centered at index `dftshift` (it is not FFT-ordered),
+        # so the region allowed by max_shifts is cropped around that index.
+        _center = int(dftshift)
+        _starts = np.maximum(_center - _lshift, 0)
+        _stops = np.minimum(_center + _rshift + 1, upsampled_region_size)
+        power = power[tuple(slice(int(i0), int(i1)) for i0, i1 in zip(_starts, _stops))]
 
-        maxima = (
-            backend.asnumpy(
-                backend.unravel_index(backend.argmax(power), power.shape)
-            ).astype(np.float32)
-            - dftshift
+        local_maxima = backend.asnumpy(
+            backend.unravel_index(backend.argmax(power), power.shape)
         )
+        maxima = (local_maxima + _starts).astype(np.float32) - dftshift
         shifts = shifts + maxima / upsample_factor
-        pcc = math.sqrt(backend.asnumpy(power[tuple(int(round(m)) for m in maxima)]))
+        pcc = math.sqrt(backend.asnumpy(power[tuple(local_maxima)]))
     else:
         pcc = math.sqrt(backend.asnumpy(power[tuple(maxima)]))
     return shifts, pcc
